@@ -171,7 +171,7 @@ func checkTimerType(c *core.Ctx, rule string) {
 		if !ok {
 			return
 		}
-		switch an.FieldOf(fa).Name() {
+		switch an.FieldName(an.FieldOf(fa)) {
 		case "timeout":
 			okT = st.Val == ssa.Value(nt.Params[0])
 		case "checkingTimeout":
@@ -184,7 +184,7 @@ func checkTimerType(c *core.Ctx, rule string) {
 	okR := false
 	an.AllInstrs(rf, func(in ssa.Instruction) {
 		if st, ok := in.(*ssa.Store); ok {
-			if fa, ok := st.Addr.(*ssa.FieldAddr); ok && an.FieldOf(fa).Name() == "lastUpdate" && an.Render(st.Val) == "time.Now()" && st.Block() == rf.Blocks[0] {
+			if fa, ok := st.Addr.(*ssa.FieldAddr); ok && an.FieldName(an.FieldOf(fa)) == "lastUpdate" && an.Render(st.Val) == "time.Now()" && st.Block() == rf.Blocks[0] {
 				okR = true
 			}
 		}
